@@ -92,6 +92,24 @@ def gen_cases(ctx, rng):
         cases.append({"dir": rng.choice(["upstream", "downstream"]), "chain": chain, "src": src, "ops": ops, "neighbours": True,
                       "horizon": 3600 * 1000 * L.MS, "seed": 9000 + i, "links": rng.choice([1, 1, 2])})
         stats["neighbour_reconfigurations"] = stats.get("neighbour_reconfigurations", 0) + 1
+    # a receiver (or a slow neighbour behind the toxic) that takes longer than 5 s over a piece: nothing may be given up on
+    for i in range(16 if ctx.tier == "quick" else 400):
+        N = rng.choice([100, 1000, 5000, 1000000])
+        slow = rng.choice([5500, 7000, 12000]) * L.MS
+        post = [L.tx("bandwidth", name="b", rate=1)] if rng.chance(1, 3) else []
+        src, t = [], 1 * L.MS
+        for _ in range(rng.range(2, 5)):
+            src.append({"at": t, "n": rng.range(50, 700)})
+            t += rng.choice([1, 10]) * L.MS
+        src.append({"at": 200000 * L.MS, "close": True})
+        c = {"dir": "downstream", "chain": [L.tx("limit_data", name="d", bytes=N)] + post, "src": src, "horizon": 3600 * 1000 * L.MS, "seed": 12000 + i,
+             "slow_receiver": True}
+        if not post:
+            c["sink_delay"] = [slow]
+        else:
+            c["src"] = [{"at": 1 * L.MS, "n": 9000}, {"at": 2 * L.MS, "n": 400}, {"at": 200000 * L.MS, "close": True}]   # 9 s through 1 KB/s
+        cases.append(c)
+        stats["slow_receiver"] = stats.get("slow_receiver", 0) + 1
     return cases, stats
 
 
@@ -125,6 +143,11 @@ def oracle(case, res):
         return None
     N = ds[0]["attributes"]["bytes"]
     sent = sum(e.get("n", 0) for e in case["src"])
+    if case.get("slow_receiver"):
+        want = min(max(N, 0), sent)
+        if not res["prefix_ok"] or res["total"] != want:
+            return "with a receiver that takes longer than 5 s per piece: receiver got %d bytes (prefix: %s), expected min(N, total) = %d" % (res["total"], res["prefix_ok"], want)
+        return None
     if case.get("neighbours"):
         want = min(max(N, 0), sent)
         if not res["prefix_ok"] or res["total"] != want:
@@ -157,7 +180,7 @@ def run(ctx):
         ctx, PID, gen_cases, oracle,
         known_class=lambda c, r, w: "limit-wrap" if c.get("f11") and "with limit updates" in w else None,
         model_filter=lambda c: not c.get("ops"),
-        classify=lambda w: "neighbour-reconfiguration" if "neighbouring" in w else "limit-update" if "with limit updates" in w else "wrong-prefix" if ("expected exactly" in w or "prefix" in w) else ("close" if "closed" in w else "crash"),
+        classify=lambda w: "slow-receiver" if "longer than 5 s" in w else "neighbour-reconfiguration" if "neighbouring" in w else "limit-update" if "with limit updates" in w else "wrong-prefix" if ("expected exactly" in w or "prefix" in w) else ("close" if "closed" in w else "crash"),
         rule="N over {min64,-1,0,1,2,99,100,101,32767,32768,32769,10^6} x payload lengths N-2..N+2 and random x chunkings (whole, "
              "all-ones for short payloads, random compositions), limit_data behind/ahead of 0-2 preserving stages, 1-3 connections; plus updates of "
              "the limit between chunks, and add/remove/update of neighbouring toxics (before and behind limit_data) between chunks; "
